@@ -612,9 +612,14 @@ def number_order_rule(F, rep):
             rep.violation(rid, key, "%s is not implemented by hand (derived or missing): equality would compare representations, not values" % n, "feel-number/src/number.rs")
             continue
         h = F.hir[cands[0]]
-        ps = [p for p in c02.prims_in(c02.method_value(F, W, h)) if p[1] == "decQuadCompare"]
+        vs = c02.method_value(F, W, h)
+        ps = [p for p in c02.prims_in(vs) if p[1] == "decQuadCompare"]
         got = [sorted(c02.leaf_names(x)) for x in ps[0][2]] if ps else None
-        if got == [["self"], ["rhs"]]:
+        # an answer computed some other way (a native-integer "fast path", a textual comparison) makes `<`, `=`, `>` disagree for the values it mishandles
+        other = sorted({str(v) for v in vs if v[0] == "expr" or (v[0] == "prim" and v[1] != "decQuadCompare")})
+        if got == [["self"], ["rhs"]] and other:
+            rep.violation(rid, key, "%s also answers from a computation that is not decQuadCompare(self, rhs): %s" % (cands[0], other[:3]), "%s:%s" % (h["file"], h["line"]))
+        elif got == [["self"], ["rhs"]]:
             rep.ok(rid, key, "decQuadCompare(self, rhs)")
         else:
             rep.violation(rid, key, "%s does not compare through decQuadCompare(self, rhs) (found %s)" % (cands[0], got), "%s:%s" % (h["file"], h["line"]))
